@@ -226,6 +226,7 @@ def run(repo, chk):
     rule_f(repo, chk)
     rule_g(repo, chk)
     rule_h(repo, chk)
+    rule_once(repo, chk)
 
 
 # ---------------------------------------------------------------------------
@@ -777,8 +778,42 @@ def rule_g(repo, chk):
     uses_override = ov is not None and '.override' in src(ov.node) and any(call_name(c) == 'overridden' for c in calls_in(f.node))
     chk.ob('g', f.ref, 'base-class handlers are bound on the instance unless the subclass overrides them (override flag consulted)', bool(binds) and uses_override,
            loc(f, f.node), discr='override-consulted')
-    loops = [n for n in walk_no_defs(f.node) if isinstance(n, ast.For) and src(n.iter) == f'{cls_p}.__bases__']
-    chk.ob('g', f.ref, 'every direct base class is visited', bool(loops), loc(f, f.node), discr='all-bases', nontrivial=False)
+    # all base classes, not only the direct ones: the loop runs over the MRO of the class (a local holding `cls.__mro__`, possibly sliced / enumerated)
+    def over_mro(e, depth=0):
+        t = src(e).replace(' ', '')
+        if f'{cls_p}.__mro__' in t:
+            return True
+        return depth < 2 and any(isinstance(w, ast.Name) and any(over_mro(v, depth + 1) for v in pat.local_feeds(f, w.id)) for w in ast.walk(e))
+    loops = [n for n in walk_no_defs(f.node) if isinstance(n, ast.For) and over_mro(n.iter)]
+    direct = [n for n in walk_no_defs(f.node) if isinstance(n, ast.For) and f'{cls_p}.__bases__' in src(n.iter)]
+    chk.ob('g', f.ref, 'every base class is visited, at any depth of the hierarchy (the method resolution order, not only the direct bases)', bool(loops) and not direct,
+           loc(f, (direct or loops or [f.node])[0]), discr='all-bases')
+    # a handler of a base class is hidden only by an override=True declaration in a class between it and the class being instantiated
+    if ov is not None and loops:
+        okd = len(ov.params) >= 2 or '__mro__' in src(ov.node) or any('mro' in src(w) for w in ast.walk(ov.node) if isinstance(w, ast.Name))
+        chk.ob('g', f.ref, 'whether a base handler is overridden is decided over the classes between the declaring base and the class being instantiated', okd, loc(ov, ov.node),
+               discr='override-along-mro')
+
+
+def rule_once(repo, chk):
+    """An event fired on several channels is one event: a handler that matches more than one of the channels still runs once."""
+    chk.rule('C01.i', 'the dispatcher unites the handler sets of the channels an event is fired on (set / dict.fromkeys), it does not concatenate them')
+    d = repo.func(MANAGER, 'Manager._dispatcher')
+    chk.touch(d)
+    sorts = [c for c in calls_in(d.node) if call_name(c) == 'sorted' and c.args]
+    need(sorts, 'C01.i: the dispatcher does not sort the handlers')
+    for c in sorts:
+        exprs = list(pat.deref(d, c.args[0]))
+        more = []
+        for e in exprs:
+            for w in ast.walk(e):
+                if isinstance(w, ast.Name):
+                    more += [v for v in pat.local_feeds(d, w.id) if not isinstance(v, ast.Name)]
+        texts = [src(e).replace(' ', '') for e in exprs + more]
+        per_channel = any('chain(' in t or 'forchannelin' in t.replace(' ', '') for t in texts)
+        united = any(t.startswith(('set(', 'frozenset(', 'list(dict.fromkeys(', 'dict.fromkeys(', 'list(set(')) or 'set().union(' in t or '.union(' in t for t in texts)
+        chk.ob('i', d.ref, 'a handler that matches several of the channels of an event is invoked once (the per-channel handler sets are united before sorting)',
+               united or not per_channel, loc(d, c), detail='; '.join(t[:60] for t in texts[:3]), discr='handlers-united')
 
 
 def rule_h(repo, chk):
@@ -849,6 +884,17 @@ def rule_h(repo, chk):
         okr = bool(rem) and p is None and not brk
     chk.ob('h', r.ref, 'removeHandler removes the handler from every name it was filed under (or from the one name given)', okr and okn, loc(r, r.node),
            discr='all-names-removed')
+    # mirror of addHandler for handlers without names: they are filed in the "*" table or in the globals, and removeHandler must look there
+    mp = r.params[1]
+    grem = [n for n in gr.nodes if n.kind == 'stmt' and any(isinstance(c.func, ast.Attribute) and c.func.attr in ('remove', 'discard') and src(c.func.value) == 'self._globals'
+                                                           and [src(x) for x in c.args] == [mp] for c in calls_in(n.ast))]
+    star_names = [n for n in gr.nodes if n.kind == 'stmt' and isinstance(n.ast, ast.Assign) and src(n.ast.targets[0]) == nmv and src(n.ast.value).replace('"', "'") in ("['*']", "('*',)")]
+    nameless = pat.test_edge(lambda tt, pol: (pol == 'F' and src(tt) == f'{mp}.names') or (pol == 'T' and src(tt) == f'not {mp}.names'))
+    okm = bool(grem) and bool(star_names) and all(pat.guarded_by(gr, n, nameless) is None for n in grem + star_names) and \
+        all(pat.guarded_by(gr, n, pat.test_edge(lambda tt, pol: pat.fact_matches(pat.compare_fact(tt, pol), f'{mp}.channel', ('==',), "'*'"))) is None for n in grem) and \
+        all(pat.guarded_by(gr, n, pat.test_edge(lambda tt, pol: pat.fact_matches(pat.compare_fact(tt, pol), f'{mp}.channel', ('!=',), "'*'"))) is None for n in star_names)
+    chk.ob('h', r.ref, 'a handler without names is removed from where addHandler filed it: the globals when it listens on channel "*", else the "*" table', okm,
+           loc(r, r.node), discr='nameless-removed')
     w = repo.func(HANDLERS, 'handler.wrapper')
     chk.touch(w)
     defaults = {'channel': ('None', None), 'override': ('False',), 'priority': ('0',)}
